@@ -55,3 +55,6 @@ pub use crate::value::{
 };
 
 pub mod prelude;
+
+#[cfg(sonic_rs_verif)]
+pub mod verif_hooks;
